@@ -332,11 +332,42 @@ Definition pump_init (input : list Z) : state := mk_init [running 1; idle] [0] [
 Definition chan_net : net := mkNet [usr [IRecv 0 GOwn 1 2 2; IDeliver 0; IExit]; bg (pump_prog 0 0)] std_desc 1.
 Definition chan_init (cap : nat) (input : list Z) : state := mk_init [running 0; running 0] [cap] [input].
 
-(* MergeIterators (source j per goroutine, unbuffered) / GenerateParallel (one shared generator, 2n+1) *)
+(* MergeIterators (source j per goroutine, unbuffered); f = const 0 with a buffer of 2n+1 is the
+   GenerateParallel of before the explicit context check (kept: Corr and the old theorems use it) *)
 Definition fanin_net (n : nat) (srcf : nat -> nat) : net :=
   mkNet ([usr (cons_init_prog n 0); bg [IExit]; bg (closer_prog 0)] ++ map (fun j => wgp (fanin_prog (srcf j) 0)) (seq 0 n)) std_desc 1.
 Definition fanin_init (n cap : nat) (srcs : list (list Z)) : state :=
   mk_init ([running 1; idle; idle] ++ idles n) [cap] srcs.
+
+(* Producer.GenerateParallel(n): every worker runs  pipe.Processor().ReadAll(wrapper)  where wrapper is
+     if ctx.Err() != nil { return ctx.Err() }                (0: the explicit context check, every iteration)
+     value, err := pf(ctx)                                   (1: one call of the shared generator)
+     err == nil                          -> pipe.Write(value) (2), next iteration
+     err is the end of the stream (errors.Is(err, io.EOF), bare or wrapped) -> return; NOTHING is cancelled
+     err is a failure, abort mode        -> cancel the worker group (3); return
+     err is a failure, ContinueOnError / ContinueOnPanic -> ErrIteratorSkip: next iteration (4, 5)
+   The input list stands for the values the generator produces; what happens when it has no more is the
+   network parameter [gend]. GSkip is the generator that from then on fails for ever with an ordinary
+   error and does not look at its context: the loop 4 -> 5 -> 4 touches no channel, the ICheck at 4 is
+   the ctx.Err() test of the wrapper (the same test as at 0, on the retry path). *)
+Inductive gend := GEof | GFail | GSkip.
+Definition gen_prog (e : gend) : list instr :=
+  [ICheck GOwn 1 6;
+   ISrc 0 GOwn 2 (match e with GEof => 6 | GFail => 3 | GSkip => 4 end) 6;
+   ISend 0 GOwn 0 6 6;
+   ICancel 2 6;
+   ICheck GOwn 5 6;
+   IGoto 4;
+   IExit].
+Definition gen_net (n : nat) (e : gend) : net :=
+  mkNet ([usr (cons_init_prog n 0); bg [IExit]; bg (closer_prog 0)] ++ map (fun _ => wgp (gen_prog e)) (seq 0 n)) std_desc 1.
+Definition gen_init (n : nat) (input : list Z) : state := fanin_init n (2 * n + 1) [input].
+
+(* a receiver that ranges over the channel returned by Iterator.BufferedChannel / Channel: it has no
+   context of its own (context 5 is never cancelled by anybody); the pump runs under context 1 *)
+Definition eq_desc (a c : cid) : bool := a =? c.
+Definition range_net : net := mkNet [usr [IRecv 0 GOwn 1 2 2; IDeliver 0; IExit]; bg (pump_prog 0 0)] eq_desc 1.
+Definition range_init (cap : nat) (input : list Z) : state := mk_init [running 5; running 1] [cap] [input].
 
 (* Iterator.Split(n) read by n user goroutines; output j has context 3+j, a child of the user's *)
 Definition split_net (n : nat) : net :=
